@@ -217,4 +217,6 @@ func runC19(r *Run, rng *Rng, thorough bool) {
 			r.Fail(f.clause, f.detail)
 		}
 	}
+	// extension claims-sets: what is attached is what the issued token's payload says, the extension's own claims included
+	extSignRoundTrip(r, rng, map[bool]int{false: 200, true: 4000}[thorough])
 }
